@@ -540,6 +540,14 @@ def r3(p, rep, lockinfo):
                             par = getattr(n, "_parent", None)
                             if isinstance(par, ast.Assign) and any(isinstance(t, ast.Attribute) for t in par.targets):
                                 bad.append(f"{f2.qualname}: stored in {norm(par.targets[0])}")
+                            # bound to a local that a returned closure keeps: one object for all later calls (and threads)
+                            if isinstance(par, ast.Assign) and isinstance(f2.node, (ast.FunctionDef, ast.AsyncFunctionDef)):
+                                locs = {t.id for t in par.targets if isinstance(t, ast.Name)}
+                                returned = {x.id for r_ in walk_no_nested(f2.node) if isinstance(r_, ast.Return) and r_.value is not None for x in ast.walk(r_.value) if isinstance(x, ast.Name)}
+                                for g2 in [x for x in ast.walk(f2.node) if isinstance(x, (ast.FunctionDef, ast.Lambda)) and x is not f2.node]:
+                                    gname = getattr(g2, "name", None)
+                                    if gname in returned and any(isinstance(x, ast.Name) and x.id in locs and isinstance(x.ctx, ast.Load) for x in ast.walk(g2)):
+                                        bad.append(f"{f2.qualname}: kept by the returned closure `{gname}` (one instance serves every later call, from any thread)")
             for m2 in p.modules.values():
                 for n in walk_no_nested(m2.tree):
                     if isinstance(n, ast.Call) and enclosing(n, (ast.FunctionDef, ast.Lambda)) is None:
